@@ -874,55 +874,70 @@ Definition ok_resolve (gs : list gt_session) (tl : list (Z * list (Z * nat))) (t
 
 (* ------------------------------------------------------------------ record side: the dlopen() wrapper *)
 (* libmcount/wrap.c dlopen() + dlopen_base_callback(): what one traced thread does, as a tree.
-   [ARec a] is a traced call or return at address a (mcount_entry/mcount_exit read the clock and
-   write a record).  [ADlopen base tab deps ctor] is a call of the wrapper: real_dlopen() maps the
+   [ARec a]: a traced call or return at address a (mcount_entry/mcount_exit read the clock and
+   write a record).
+   [ADlopen base tab deps ctor]: a call of the wrapper that loads something: real_dlopen() maps the
    library at [base] together with its not yet mapped DT_NEEDED dependencies [deps] and runs their
-   static initialisers [ctor] (ELF constructors, C++ global constructors - they record and may call
-   dlopen again) before it returns; afterwards the wrapper sends the DLOP messages (time stamp,
-   base, name) that end up in task.txt.
-   [early = true]: the clock is read on entry of the wrapper, BEFORE real_dlopen() (the code;
-   generated flag wrap_dlopen_clock_first).  [early = false] reads it after real_dlopen().
-   [fixed = true] is the code since fix 0c4417a: every library the call mapped is reported
-   (generated flag wrap_dlopen_reports_all: no name filter in the callback) and all of them carry
-   the entry time of the OUTERMOST dlopen in progress in the thread ([outer]).  [fixed = false] is
-   the code as found: only the library named in the call is reported, with the call's own time.
-   (The fixed code sends the message of a still-loading outer library from the inner call; the
-   set of messages and their time stamps are the same as here, only their order differs.)
+   static initialisers [ctor] (they record and may call dlopen again) before it returns; afterwards
+   the wrapper sends the DLOP messages (time stamp, base, name) that end up in task.txt.
+   [ADlnull]: dlopen(NULL, flags) - the wrapper returns right after real_dlopen().
+   [ADlnone]: a call that maps nothing new (failed dlopen, RTLD_NOLOAD, library already loaded,
+   thread not traced / recursion guard): every later path of the wrapper, no message.
+   State of the wrapper: the thread's clock and the two TLS variables dlopen_depth / dlopen_start.
+   Flags (the first three are generated from the C text, UV.Gen.Kernels):
+   [early]    the clock is read on entry, BEFORE real_dlopen()          (wrap_dlopen_clock_first)
+   [fixed]    every newly mapped library is reported, stamped with the entry time of the outermost
+              dlopen in progress (fix 0c4417a); false = code as found: only the named library, with
+              the call's own time                                        (wrap_dlopen_reports_all)
+   [balanced] dlopen_depth is decremented right after real_dlopen(), before the first return
+                                                                         (wrap_dlopen_depth_balanced)
    Every clock read returns a later value than the previous one of the thread. *)
 Inductive act :=
 | ARec (a : Z)
-| ADlopen (base : Z) (tab : symtab) (deps : list (Z * symtab)) (ctor : list act).
+| ADlopen (base : Z) (tab : symtab) (deps : list (Z * symtab)) (ctor : list act)
+| ADlnull
+| ADlnone.
 
-Definition rout := (Z * list (Z * Z) * list dlib)%type.      (* clock, records (time, addr), DLOP messages *)
+Record wst := mkW { w_clk : Z; w_depth : nat; w_start : Z }.
+Definition rout := (wst * list (Z * Z) * list dlib)%type.      (* state, records (time, addr), DLOP messages *)
 
-Definition dl_stamp (fixed : bool) (outer : option Z) (entry : Z) : Z :=
-  if fixed then match outer with Some t0 => t0 | None => entry end else entry.
+(* if (dlopen_depth++ == 0) dlopen_start = now; *)
+Definition w_enter (st : wst) : wst :=
+  mkW (w_clk st + 1) (S (w_depth st)) (if Nat.eqb (w_depth st) 0 then w_clk st else w_start st).
+Definition w_leave (st : wst) : wst := mkW (w_clk st) (Nat.pred (w_depth st)) (w_start st).
+
+Definition dl_stamp (fixed : bool) (st : wst) : Z :=
+  if fixed then (if Nat.eqb (w_depth st) 0 then w_clk st else w_start st) else w_clk st.
 Definition dl_msgs (fixed : bool) (stamp base : Z) (tab : symtab) (deps : list (Z * symtab)) : list dlib :=
   mkDl stamp base tab :: (if fixed then map (fun d => mkDl stamp (fst d) (snd d)) deps else []).
 
-Fixpoint run_act (early fixed : bool) (outer : option Z) (x : act) (clk : Z) : rout :=
+Fixpoint run_act (early fixed balanced : bool) (x : act) (st : wst) : rout :=
   match x with
-  | ARec a => (clk + 1, [(clk, a)], [])
+  | ARec a => (mkW (w_clk st + 1) (w_depth st) (w_start st), [(w_clk st, a)], [])
+  | ADlnull => ((if balanced then w_leave (w_enter st) else w_enter st), [], [])
+  | ADlnone => (w_leave (w_enter st), [], [])
   | ADlopen base tab deps ctor =>
-      let stamp := dl_stamp fixed outer clk in
       let run_l :=
-        (fix go (l : list act) (c : Z) : rout :=
+        (fix go (l : list act) (s : wst) : rout :=
            match l with
-           | [] => (c, [], [])
-           | y :: r => let '(c1, r1, d1) := run_act early fixed (Some stamp) y c in
-                       let '(c2, r2, d2) := go r c1 in (c2, r1 ++ r2, d1 ++ d2)
+           | [] => (s, [], [])
+           | y :: r => let '(s1, r1, d1) := run_act early fixed balanced y s in
+                       let '(s2, r2, d2) := go r s1 in (s2, r1 ++ r2, d1 ++ d2)
            end) in
+      let '(s2, rs, ds) := run_l ctor (w_enter st) in
       if early
-      then let '(c2, rs, ds) := run_l ctor (clk + 1) in (c2, rs, ds ++ dl_msgs fixed stamp base tab deps)
-      else let '(c2, rs, ds) := run_l ctor clk in (c2 + 1, rs, ds ++ dl_msgs fixed c2 base tab deps)
+      then (w_leave s2, rs, ds ++ dl_msgs fixed (dl_stamp fixed st) base tab deps)
+      else (w_leave (mkW (w_clk s2 + 1) (w_depth s2) (w_start s2)), rs, ds ++ dl_msgs fixed (w_clk s2) base tab deps)
   end.
 
-Fixpoint run_acts (early fixed : bool) (outer : option Z) (l : list act) (c : Z) : rout :=
+Fixpoint run_acts (early fixed balanced : bool) (l : list act) (s : wst) : rout :=
   match l with
-  | [] => (c, [], [])
-  | y :: r => let '(c1, r1, d1) := run_act early fixed outer y c in
-              let '(c2, r2, d2) := run_acts early fixed outer r c1 in (c2, r1 ++ r2, d1 ++ d2)
+  | [] => (s, [], [])
+  | y :: r => let '(s1, r1, d1) := run_act early fixed balanced y s in
+              let '(s2, r2, d2) := run_acts early fixed balanced r s1 in (s2, r1 ++ r2, d1 ++ d2)
   end.
+
+Definition w0 (clk : Z) : wst := mkW clk 0 0.
 
 (* the analysis side receives the DLOP messages in the order they were sent *)
 Definition dl_list (msgs : list dlib) : list dlib := fold_left (fun l d => insert_dl d l) msgs [].
@@ -1158,3 +1173,9 @@ Fixpoint strictly_sorted (tab : symtab) : bool :=
 Definition ok_module_table (f : elffile) (tab : symtab) : bool :=
   forallb (fun e => if loadable e then existsb (fun s => s_addr s =? e_value e - ef_vaddr0 f) tab else true) (ef_symtab f)
   && strictly_sorted (filter (fun s => negb (s_type s =? K_ST_PLT_FUNC)) tab).
+
+(* run-time checker for the wrapper's time stamps on a real recording: the DLOP stamp of a load lies
+   between the record of the dlopen() call that performed it (PLT entry, written before the wrapper
+   reads the clock) and the first record made inside the library.  (lo, stamp, hi) *)
+Definition ok_stamp_window (w : list (Z * Z * Z)) : bool :=
+  forallb (fun x => match x with (lo, st, hi) => (lo <=? st) && (st <=? hi) end) w.
